@@ -121,6 +121,14 @@ MUTANTS = [
      [("src/input.rs", "self.source_eof = source_size == 0;", "self.source_eof = source_size < buf.len();")]),
     ("r16-newline-error-ignored", "violations", "R16", "C03", "R03.1", "document terminator's write error swallowed in transcode_value",
      [("src/json.rs", "\t\tserde_json::to_writer(&mut self.writer, &value)?;\n\t\tself.finish_document()", "\t\tserde_json::to_writer(&mut self.writer, &value)?;\n\t\tlet _ = self.finish_document();\n\t\tOk(())")]),
+    ("r22-json-always-hard", "violations", "R22", "C09", "R09.3", "the JSON trial's closure turns every parser error into a hard error",
+     [("src/json.rs", "trial_verdict(trial, |err| err.is_io().then(|| err.into()))", "trial_verdict(trial, |err| Some(io::Error::from(err)))")]),
+    ("r22-msgpack-eof-hard", "violations", "R22", "C09", "R09.3", "the MessagePack closure no longer exempts UnexpectedEof",
+     [("src/msgpack.rs", "\t\tInvalidMarkerRead(err) | InvalidDataRead(err)\n\t\t\tif err.kind() != io::ErrorKind::UnexpectedEof =>\n\t\t{\n\t\t\tSome(err)\n\t\t}", "\t\tInvalidMarkerRead(err) | InvalidDataRead(err) => Some(err),")]),
+    ("r22-verdict-none-is-error", "violations", "R22", "C09", "R09.3", "shared verdict helper reports 'no match' as an error",
+     [("src/detect.rs", "\t\tErr(None) => Ok(false),", "\t\tErr(None) => Err(io::Error::new(io::ErrorKind::InvalidData, \"no match\")),")]),
+    ("r22-depth-unconfigured", "violations", "R22", "C18", "R18.2", "shared ignore_value helper forgets set_max_depth",
+     [("src/msgpack.rs", "\tde.set_max_depth(DEPTH_LIMIT);\n\tde::IgnoredAny::deserialize(&mut de).map(drop)", "\tlet _ = DEPTH_LIMIT;\n\tde::IgnoredAny::deserialize(&mut de).map(drop)")]),
     ("r9-result-ignored", "violations", "R9", "C09", "R09.2", "the first row's format is returned whatever its trial says",
      [("src/detect.rs", "\t\tif input_matches(input.borrow_mut())? {\n\t\t\treturn Ok(Some(format));\n\t\t}\n", "\t\tlet _ = input_matches(input.borrow_mut())?;\n\t\treturn Ok(Some(format));\n")]),
 ]
